@@ -275,13 +275,39 @@ func TestC02_OracleSafety(t *testing.T) {
 			return n
 		}
 
+		type pv struct {
+			v  *chain.Validator
+			cl c02Claim
+		}
+		// cast delivers one block of votes and records the successful ones in the shadow state
+		cast := func(t *rapid.T, pvs []pv, txs [][]byte) {
+			oks := block(t, txs...)
+			for i, p := range pvs {
+				log = append(log, fmt.Sprintf("vote(v%d,n%d,var%d)=%v", p.v.Index, p.cl.nonce, p.cl.variant, oks[i]))
+				if oks[i] {
+					id := p.cl.id()
+					issued[id] = p.cl
+					if p.cl.nonce > maxNonceSeen {
+						maxNonceSeen = p.cl.nonce
+					}
+					if votes[id] == nil {
+						votes[id] = map[string]bool{}
+					}
+					votes[id][p.v.Val().String()] = true
+					pendingVoteSincePowerChange = true
+					// competing claims at one nonce?
+					for _, m := range issued {
+						if m.nonce == p.cl.nonce && m.compass == p.cl.compass && m.id() != id {
+							competing = true
+						}
+					}
+				}
+			}
+		}
+
 		t.Repeat(map[string]func(*rapid.T){
 			"voteBlock": func(t *rapid.T) {
 				k := rapid.IntRange(1, len(c.Vals)).Draw(t, "nVotes")
-				type pv struct {
-					v  *chain.Validator
-					cl c02Claim
-				}
 				var pvs []pv
 				var txs [][]byte
 				used := map[int]bool{}
@@ -316,28 +342,56 @@ func TestC02_OracleSafety(t *testing.T) {
 					pvs = append(pvs, pv{v, cl})
 					txs = append(txs, c.MustSign(v.Actor, mkMsg(v, cl)))
 				}
-				oks := block(t, txs...)
-				for i, p := range pvs {
-					log = append(log, fmt.Sprintf("vote(v%d,n%d,var%d)=%v", p.v.Index, p.cl.nonce, p.cl.variant, oks[i]))
-					if oks[i] {
-						id := p.cl.id()
-						issued[id] = p.cl
-						if p.cl.nonce > maxNonceSeen {
-							maxNonceSeen = p.cl.nonce
-						}
-						if votes[id] == nil {
-							votes[id] = map[string]bool{}
-						}
-						votes[id][p.v.Val().String()] = true
-						pendingVoteSincePowerChange = true
-						// competing claims at one nonce?
-						for _, m := range issued {
-							if m.nonce == p.cl.nonce && m.compass == p.cl.compass && m.id() != id {
-								competing = true
-							}
-						}
+				cast(t, pvs, txs)
+				judge(t)
+			},
+			// A governance override to the cursor's own value makes every validator able to vote at the next nonce
+			// again; those who already voted for a still-pending claim now vote for a competitor, the others split.
+			"overrideAndSplitRevote": func(t *rapid.T) {
+				if resets > 3 {
+					t.Skip("enough resets")
+				}
+				m := menu(prevCursor + 1)
+				ai := -1
+				for i, cl := range m {
+					if len(votes[cl.id()]) > 0 && applied[cl.id()] == 0 {
+						ai = i
+						break
 					}
 				}
+				if ai < 0 {
+					t.Skip("no pending claim at the next nonce")
+				}
+				if err := c.Gov(&skywaytypes.MsgNonceOverrideProposal{Metadata: chain.GovMD(), ChainReferenceId: c02Chain, Nonce: prevCursor}); err != nil {
+					t.Fatalf("override to the cursor's own value %d: %v", prevCursor, err)
+				}
+				log = append(log, fmt.Sprintf("govOverride(%d)=true", prevCursor))
+				epoch++
+				resets++
+				if got := cursor(); got != prevCursor {
+					t.Fatalf("override to %d left cursor at %d", prevCursor, got)
+				}
+				bi := (ai + rapid.IntRange(1, len(m)-1).Draw(t, "competitor")) % len(m)
+				var pvs []pv
+				var txs [][]byte
+				for _, v := range c.Vals {
+					var cl c02Claim
+					if votes[m[ai].id()][v.Val().String()] {
+						cl = m[bi]
+					} else {
+						switch rapid.IntRange(0, 2).Draw(t, "side") {
+						case 0:
+							cl = m[ai]
+						case 1:
+							cl = m[bi]
+						default:
+							continue
+						}
+					}
+					pvs = append(pvs, pv{v, cl})
+					txs = append(txs, c.MustSign(v.Actor, mkMsg(v, cl)))
+				}
+				cast(t, pvs, txs)
 				judge(t)
 			},
 			"emptyBlocks": func(t *rapid.T) {
